@@ -24,6 +24,7 @@ META = {
     ),
 }
 META["explanation"] += ' C05.R2 also: memoised functions on the decode path return immutable values only.'
+META["explanation"] += ' C05.R4 is decided by interval reasoning over one-octet ratios (bound on the quotient, or on the raw value with a bound <= the smallest divisor).'
 
 PM = "ramses_tx.parsers"
 BAD_TYPES = {
